@@ -22,13 +22,20 @@
 //     decorated result of an earlier registration, through any registry that exists" over two
 //     roots, with interceptor instances that are distinct values sharing their code (closures of
 //     one factory, method values of several receivers), distinct code, or the very same value
-//     (views.go).
+//     (views.go),
+//   - ERROR IDENTITY: the error that travels up the chain is a plain Go error (sentinel, wrapped sentinel, io.EOF,
+//     context errors, custom types, wrapped / own status), made by the handler or by any layer; every layer above
+//     must get back the very value the layer below returned (errident.go),
+//   - CONFIGURATION ORDER: a carrier with transport-level interceptors as one long-lived object: every program of
+//     registrations (plain / decorated) and (re)configurations of the transport-level interceptors {T1, T2, none},
+//     with calls after every step; each call must pass the interceptor in force when it is made (cfgorder.go).
 package main
 
 import (
 	"context"
 	"fmt"
 	"io"
+	"net/http"
 	"net/url"
 	"os"
 	"reflect"
@@ -63,9 +70,13 @@ const (
 	// bRewriteErr replaces the ERROR: a unary interceptor returns (nil, Aborted "rwerr:<who>") whatever
 	// came back; a stream interceptor swallows whatever error came back and returns nil.
 	bRewriteErr
+	// bFailRaw / bRewriteRaw (ERROR IDENTITY cases, errident.go): like bFail / bRewriteErr, but the error
+	// returned is a plain Go error without a gRPC status, of the kind caseT.EK, made by this interceptor.
+	bFailRaw
+	bRewriteRaw
 )
 
-var behNames = []string{"nil", "pass", "short", "fail", "rewrite", "rewrite-err"}
+var behNames = []string{"nil", "pass", "short", "fail", "rewrite", "rewrite-err", "fail-raw", "rewrite-raw"}
 
 // modifiers of an onward-calling behaviour: what is handed to the next layer
 const (
@@ -73,7 +84,9 @@ const (
 	mCtx = 2 // unary: a context derived from the one received (carries a value keyed by <who>)
 )
 
-func onwardBeh(b int) bool { return b == bPass || b == bRewrite || b == bRewriteErr }
+func onwardBeh(b int) bool {
+	return b == bPass || b == bRewrite || b == bRewriteErr || b == bRewriteRaw
+}
 
 // behStr: a behaviour with its modifier, e.g. "pass+req+ctx" (unary) or "rewrite+wrap" (stream)
 func behStr(kind string, b, m int) string {
@@ -122,6 +135,11 @@ type caseT struct {
 	TM  int `json:"tm,omitempty"`
 	D1M int `json:"d1m,omitempty"`
 	D2M int `json:"d2m,omitempty"`
+	// EK, when not 0, makes this an ERROR IDENTITY case (errident.go): the kind of error that a failing handler
+	// (HErr) and interceptors with behaviour fail-raw / rewrite-raw return: errKindNames[EK]
+	EK int `json:"ek,omitempty"`
+	// Cfg, when set, makes this a CONFIGURATION ORDER case (cfgorder.go); only Carrier and Form are used besides
+	Cfg *cfgT `json:"cfg,omitempty"`
 	// Ov, when set, makes this an OVERLAP case (overlap.go)
 	Ov *ovT `json:"ov,omitempty"`
 	// Vw, when set, makes this a VIEW PROGRAM case (views.go); only Carrier and Form are used besides
@@ -149,12 +167,18 @@ func (c caseT) String() string {
 	if c.Vw != nil {
 		return fmt.Sprintf("%s/%s %s", c.Carrier, c.Form, c.Vw.String())
 	}
+	if c.Cfg != nil {
+		return fmt.Sprintf("%s/%s %s", c.Carrier, c.Form, c.Cfg.String())
+	}
 	s := fmt.Sprintf("%s/%s u=%d flags=%v depth=%d %s %s other=%v/%v/%v herr=%v", c.Carrier, c.Form, c.U, c.Flags, c.Depth, c.Kind, c.chainStr(), c.OT, c.OD1, c.OD2, c.HErr)
 	if c.Ctx != 0 {
 		s += " ctx=" + []string{"live", "cancelled-at-dispatch", "cancelled-by-T-before-onward"}[c.Ctx]
 	}
 	if c.CF != 0 {
 		s += fmt.Sprintf(" client-flags=%d", c.CF-1)
+	}
+	if c.EK != 0 {
+		s += " err-kind=" + errKindNames[c.EK]
 	}
 	if c.Ov != nil {
 		s += " " + c.Ov.String()
@@ -224,6 +248,8 @@ type clog struct {
 	onReturn     func(who string)
 	// overlap cases: which interceptor calls onward late, and the gates of the RPCs in flight
 	ov *ovState
+	// error identity cases: the kind of error that fail-raw / rewrite-raw interceptors return
+	ek int
 }
 
 func (l *clog) onward(who string) {
@@ -267,6 +293,8 @@ func mkUnary(l *clog, who string, b, mod int) grpc.UnaryServerInterceptor {
 			e.retResp = wrapperspb.String("short:" + who)
 		case bFail:
 			e.retErr = status.Error(codes.PermissionDenied, "fail:"+who)
+		case bFailRaw:
+			e.retErr = rawErr(l.ek, who)
 		default: // the onward-calling behaviours
 			e.called = true
 			octx, oreq := ctx, req
@@ -295,6 +323,8 @@ func mkUnary(l *clog, who string, b, mod int) grpc.UnaryServerInterceptor {
 				e.retResp = wrapperspb.String("rw:" + who)
 			case bRewriteErr:
 				e.retErr = status.Error(codes.Aborted, "rwerr:"+who)
+			case bRewriteRaw:
+				e.retErr = rawErr(l.ek, who)
 			}
 		}
 		l.returning(who)
@@ -316,6 +346,8 @@ func mkStream(l *clog, who string, b, mod int) grpc.StreamServerInterceptor {
 			ss.SendMsg(wrapperspb.String("short:" + who))
 		case bFail:
 			e.retErr = status.Error(codes.PermissionDenied, "fail:"+who)
+		case bFailRaw:
+			e.retErr = rawErr(l.ek, who)
 		default: // the onward-calling behaviours
 			e.called = true
 			oss := ss
@@ -341,6 +373,8 @@ func mkStream(l *clog, who string, b, mod int) grpc.StreamServerInterceptor {
 				e.retErr = status.Error(codes.Aborted, "rw:"+who)
 			case bRewriteErr:
 				e.retErr = nil
+			case bRewriteRaw:
+				e.retErr = rawErr(l.ek, who)
 			}
 		}
 		l.returning(who)
@@ -378,7 +412,9 @@ func makeDescNamed(svcName, pre string, c caseT, l *clog) *grpc.ServiceDesc {
 			if l.ov != nil {
 				e.rpc = rpcOfReq(req)
 			}
-			if c.HErr {
+			if c.HErr && c.EK != 0 {
+				e.retErr = rawErr(c.EK, "H")
+			} else if c.HErr {
 				e.retErr = status.Error(codes.NotFound, "handler error")
 			} else {
 				e.retResp = wrapperspb.String("resp:" + name)
@@ -410,6 +446,10 @@ func makeDescNamed(svcName, pre string, c caseT, l *clog) *grpc.ServiceDesc {
 				e.reqValue = in.Value
 			} else {
 				e.reqValue = "<recv error: " + err.Error() + ">"
+			}
+			if c.HErr && c.EK != 0 {
+				e.retErr = rawErr(c.EK, "H")
+				return e.retErr
 			}
 			if c.HErr {
 				e.retErr = status.Error(codes.NotFound, "handler error")
@@ -558,12 +598,17 @@ type expectation struct {
 	msgs []string // stream: messages sent
 	code codes.Code
 	msg  string
+	raw  string // error identity cases: who made a plain Go error on the way (not empty = the mechanism was reached)
 }
 
 func expect(c caseT, ch []chainEl, method string) expectation {
 	var ev func(i int) expectation
 	ev = func(i int) expectation {
 		if i == len(ch) {
+			if c.HErr && c.EK != 0 {
+				code, msg := refStatus(rawErr(c.EK, "H"))
+				return expectation{log: []string{"H"}, code: code, msg: msg, raw: "H"}
+			}
 			if c.HErr {
 				return expectation{log: []string{"H"}, code: codes.NotFound, msg: "handler error"}
 			}
@@ -575,6 +620,9 @@ func expect(c caseT, ch []chainEl, method string) expectation {
 			return expectation{log: []string{who}, resp: "short:" + who, msgs: []string{"short:" + who}}
 		case bFail:
 			return expectation{log: []string{who}, code: codes.PermissionDenied, msg: "fail:" + who}
+		case bFailRaw:
+			code, msg := refStatus(rawErr(c.EK, who))
+			return expectation{log: []string{who}, code: code, msg: msg, raw: who}
 		}
 		x := ev(i + 1)
 		x.log = append([]string{who}, x.log...)
@@ -593,14 +641,20 @@ func expect(c caseT, ch []chainEl, method string) expectation {
 		switch ch[i].beh {
 		case bRewrite:
 			if c.Kind == "unary" {
-				return expectation{log: x.log, resp: "rw:" + who}
+				return expectation{log: x.log, resp: "rw:" + who, raw: x.raw}
 			}
-			return expectation{log: x.log, msgs: x.msgs, code: codes.Aborted, msg: "rw:" + who}
+			return expectation{log: x.log, msgs: x.msgs, code: codes.Aborted, msg: "rw:" + who, raw: x.raw}
 		case bRewriteErr:
 			if c.Kind == "unary" {
-				return expectation{log: x.log, code: codes.Aborted, msg: "rwerr:" + who}
+				return expectation{log: x.log, code: codes.Aborted, msg: "rwerr:" + who, raw: x.raw}
 			}
-			return expectation{log: x.log, msgs: x.msgs}
+			return expectation{log: x.log, msgs: x.msgs, raw: x.raw}
+		case bRewriteRaw:
+			code, msg := refStatus(rawErr(c.EK, who))
+			if c.Kind == "unary" {
+				return expectation{log: x.log, code: code, msg: msg, raw: x.raw + who}
+			}
+			return expectation{log: x.log, msgs: x.msgs, code: code, msg: msg, raw: x.raw + who}
 		}
 		return x // pass
 	}
@@ -676,6 +730,7 @@ type target struct {
 	tS  grpc.StreamServerInterceptor
 	ipc *inprocgrpc.Channel
 	hs  *httpgrpc.Server
+	hh  http.Handler // configuration order cases: the mux that httpgrpc.HandleServices filled (instead of hs)
 	reg grpc.ServiceRegistrar
 }
 
@@ -945,8 +1000,12 @@ func judge(k callSpec, es []*entry, res callResult, add func(clause, sub, what s
 		}
 		if e.called && i+1 < len(es) {
 			nx := es[i+1]
-			if e.gotResp != nx.retResp || e.gotErr != nx.retErr {
-				add("result-passthrough", sub, fmt.Sprintf("call %s: %s got (%v, %v) from calling onward but %s returned (%v, %v)", full, e.who, e.gotResp, e.gotErr, nx.who, nx.retResp, nx.retErr))
+			if e.gotResp != nx.retResp || !sameErr(e.gotErr, nx.retErr) {
+				sub := sub
+				if c.EK != 0 { // error identity cases: the hand-over concerned
+					sub = handBack(k.chain, i+1, nx.who, e.who) + "," + sub
+				}
+				add("result-passthrough", sub, fmt.Sprintf("call %s: %s got (%v, %s) from calling onward but %s returned (%v, %s)", full, e.who, e.gotResp, describeErr(e.gotErr), nx.who, nx.retResp, describeErr(nx.retErr)))
 			}
 		}
 	}
@@ -956,8 +1015,12 @@ func judge(k callSpec, es []*entry, res callResult, add func(clause, sub, what s
 		if c.Kind == "unary" && res.resp != top.retResp {
 			add("caller-result", sub, fmt.Sprintf("call %s: caller got response %v, %s returned %v", full, res.resp, top.who, top.retResp))
 		}
-		if res.err != top.retErr {
-			add("caller-result", sub, fmt.Sprintf("call %s: caller got error %v, %s returned %v", full, res.err, top.who, top.retErr))
+		if !sameErr(res.err, top.retErr) {
+			sub := sub
+			if c.EK != 0 {
+				sub = handBack(k.chain, 0, top.who, "caller") + "," + sub
+			}
+			add("caller-result", sub, fmt.Sprintf("call %s: caller got error %s, %s returned %s", full, describeErr(res.err), top.who, describeErr(top.retErr)))
 		}
 		if c.Kind == "stream" && !reflect.DeepEqual(res.msgs, want.msgs) && !(len(res.msgs) == 0 && len(want.msgs) == 0) {
 			add("caller-result", sub, fmt.Sprintf("call %s: messages sent %v, expected %v", full, res.msgs, want.msgs))
@@ -993,6 +1056,14 @@ func handOff(kind string, ch []chainEl, from int, to string) string {
 	return fmt.Sprintf("%s=%s>%s", ch[from].who, behStr(kind, ch[from].beh, ch[from].mod), to)
 }
 
+// handBack names a hand-back for a fingerprint: the layer that returned (with its behaviour) and the layer that received
+func handBack(ch []chainEl, from int, fromWho, to string) string {
+	if from < 0 || from >= len(ch) {
+		return fromWho + ">" + to // the handler
+	}
+	return fmt.Sprintf("%s=%s>%s", fromWho, behNames[ch[from].beh], to)
+}
+
 func describe(v interface{}) string {
 	switch x := v.(type) {
 	case nil:
@@ -1013,6 +1084,9 @@ func runCase(c caseT, verbose bool) (probs []problem, observed string) {
 	if c.Vw != nil {
 		return runViews(c, verbose)
 	}
+	if c.Cfg != nil {
+		return runCfg(c, verbose)
+	}
 	atomic.AddInt64(&progress, 1)
 	current.Store(c.String())
 	add := func(clause, sub, what string) { probs = append(probs, problem{clause, sub, what}) }
@@ -1022,7 +1096,7 @@ func runCase(c caseT, verbose bool) (probs []problem, observed string) {
 		}
 	}()
 
-	l := &clog{}
+	l := &clog{ek: c.EK}
 	b := build(c, l, add)
 	if b == nil {
 		return
@@ -1171,7 +1245,11 @@ func call(c caseT, ctx context.Context, method, full, reqVal string, rpc int, cs
 	if c.Carrier == "inproc" {
 		ch = t.ipc
 	} else {
-		ch = &httpgrpc.Channel{Transport: common.HandlerRT(t.hs), BaseURL: baseURL}
+		var h http.Handler = t.hs
+		if t.hh != nil {
+			h = t.hh
+		}
+		ch = &httpgrpc.Channel{Transport: common.HandlerRT(h), BaseURL: baseURL}
 	}
 	if c.Kind == "unary" {
 		var out wrapperspb.StringValue
@@ -1281,6 +1359,25 @@ func fingerprint(c caseT, pr problem) string {
 			fp += "|failing=" + vwRegName(vwRoots+v.Fail)
 		}
 		return fp + "|" + pr.sub + "|" + pr.clause
+	}
+	if c.Cfg != nil {
+		// configuration order: the call concerned in pr.sub (how the service was registered, the kind, and the history of the
+		// carrier's configuration for that kind as far as it concerns the call); the rest of the program is in the replay object
+		fp := fmt.Sprintf("C16|%s|%s|cfg-order[%s]", c.Carrier, c.Form, c.Cfg.Target)
+		if c.Cfg.Early {
+			fp += "|views-early"
+		}
+		return fp + "|" + pr.sub + "|" + pr.clause
+	}
+	if c.EK != 0 {
+		// error identity: as below, with the kind of error that travels
+		switch pr.clause {
+		case "result-passthrough", "caller-result":
+			// pr.sub starts with the hand-back concerned (who returned the error to whom); the rest of the chain cannot matter
+			return fmt.Sprintf("C16|%s|%s|%s|depth=%d|err=%s|%s|%s", c.Carrier, c.Form, c.Kind, c.Depth, errKindNames[c.EK], pr.sub, pr.clause)
+		case "client-status", "client-response", "request-value", "panic":
+			return fmt.Sprintf("C16|%s|%s|%s|depth=%d|%s|herr=%v|err=%s|%s|%s", c.Carrier, c.Form, c.Kind, c.Depth, c.chainStr(), c.HErr, errKindNames[c.EK], pr.sub, pr.clause)
+		}
 	}
 	if c.Ov != nil {
 		// overlap cases: the clause, the RPC and its position among the methods (in pr.sub), who calls onward late and how, the chain
@@ -1557,7 +1654,8 @@ func main() {
 
 	evals, calls := 0, 0
 	distinct := map[string]bool{}
-	var samples, ptSamples, ovSamples, vwSamples []interface{}
+	var samples, ptSamples, ovSamples, vwSamples, eiSamples, cfgSamples []interface{}
+	eiCases := 0
 	suppressedFPs := map[string]bool{}
 	const maxReported = 100
 	sharedCases, ctxCases, cfCases, ptCases, ovCases, ovRuns := 0, 0, 0, 0, 0, 0
@@ -1586,6 +1684,9 @@ func main() {
 		if pt {
 			ptCases++
 		}
+		if c.EK != 0 {
+			eiCases++
+		}
 		probs, obs := runCase(c, false)
 		n := c.U
 		if c.Kind == "stream" {
@@ -1597,6 +1698,9 @@ func main() {
 		calls += n
 		if n > 0 && len(c.chain()) > 0 {
 			distinct[c.String()] = true
+		}
+		if c.EK != 0 && len(eiSamples) < 4 && c.Carrier != "direct" && len(c.chain()) >= 2 && c.HErr && c.T == bPass && c.D1 == bPass && (c.D2 == bNil || c.D2 == bPass) && eiCases%53 == 0 {
+			eiSamples = append(eiSamples, map[string]interface{}{"case": c, "observed": obs})
 		}
 		if len(samples) < 8 && n > 0 && len(c.chain()) >= 2 && evals%7919 == 0 {
 			samples = append(samples, map[string]interface{}{"case": c, "observed": obs})
@@ -1611,6 +1715,33 @@ func main() {
 	enumerateCtx(rep.Tier, visit)
 	enumerateClientFlags(visit)
 	enumeratePassthrough(rep.Tier, visit)
+
+	// the error identity cases (errident.go)
+	eiOK, eiWhat := errIdentSelfTest()
+	if !eiOK {
+		inconclusive("the error kinds of the error identity cases are not what the oracle needs: %s", eiWhat)
+	}
+	enumerateErrIdent(rep.Tier, visit)
+
+	// the configuration order cases (cfgorder.go)
+	cfgCases, cfgReconfigured := 0, 0
+	cfgProgs := enumerateCfg(rep.Tier, func(c caseT) {
+		evals++
+		cfgCases++
+		if c.Cfg.reconfigured() {
+			cfgReconfigured++
+		}
+		before, beforeI := atomic.LoadInt64(&cfgCallCount), atomic.LoadInt64(&cfgIntercepted)
+		probs, obs := runCase(c, false)
+		calls += int(atomic.LoadInt64(&cfgCallCount) - before)
+		if atomic.LoadInt64(&cfgIntercepted) > beforeI {
+			distinct[c.String()] = true
+		}
+		if len(cfgSamples) < 4 && len(c.Cfg.Steps) == 3 && c.Cfg.Steps[0].Op == "RD" && c.Cfg.reconfigured() && cfgCases%211 == 0 {
+			cfgSamples = append(cfgSamples, map[string]interface{}{"case": c, "program": c.Cfg.prog(), "observed": obs})
+		}
+		report(c, probs)
+	})
 
 	// the view programs (views.go)
 	calOK, calWhat := instanceCalibration()
@@ -1676,11 +1807,18 @@ func main() {
 		fmt.Printf("(%d further distinct fingerprints not reported individually after the first %d)\n", suppressed, maxReported)
 	}
 	os.Exit(rep.Finish("exploration", map[string]interface{}{
-		"evaluations":                     evals,
-		"sharing_cases":                   sharedCases,
-		"context_cases":                   ctxCases,
-		"client_flag_cases":               cfCases,
-		"passthrough_cases":               ptCases,
+		"evaluations":              evals,
+		"sharing_cases":            sharedCases,
+		"context_cases":            ctxCases,
+		"client_flag_cases":        cfCases,
+		"passthrough_cases":        ptCases,
+		"error_identity_cases":     eiCases,
+		"error_identity_self_test": eiWhat,
+		"config_order_programs":    cfgProgs,
+		"config_order_cases":       cfgCases,
+		"config_order_cases_reconfigured_after_a_registration": cfgReconfigured,
+		"config_order_calls": atomic.LoadInt64(&cfgCallCount),
+		"config_order_calls_in_force_differs_from_at_registration": atomic.LoadInt64(&cfgMoved),
 		"overlap_cases":                   ovCases,
 		"view_programs":                   vwPrograms,
 		"view_program_cases":              vwCases,
@@ -1692,8 +1830,8 @@ func main() {
 		"pool_reuse_calibration":          fmt.Sprintf("%d/%d", cal, calRounds),
 		"rpc_calls":                       calls,
 		"distinct_nontrivial":             len(distinct),
-		"rule":                            "every configuration of: descriptor shape (0-2 unary x 0-2 streams with every flag pair) x carrier (direct call of the decorated descriptor / inprocgrpc.Channel / httpgrpc.Server via HandlerRT) x form (InterceptServer / WithInterceptor) x depth x kind called x behaviour {nil,pass,short-circuit,fail,rewrite} of the transport-level, outer and inner interceptor of that kind x nil/set of each interceptor of the other kind x handler ok/error; every method of the kind is called. Behaviours of other-kind interceptors are not varied because the oracle demands they are never invoked. In addition the SHARING cases: one decorated description (InterceptServer) or decorated HandlerMap (WithInterceptor), outer decoration behaviour {pass,short,fail,rewrite} x inner {none; quick: pass; thorough: all four} on 4 (quick) / 21 (thorough) shapes, is contributed through HandlerMap.ForEach/RegisterService to 2 or 3 in-process channels / HTTP servers, or its handler is called directly 2 or 3 times, with every sequence over {no transport interceptor, A, B} of length 2 and 3; every method of the kind is called on every carrier in turn, same oracle per call. CONTEXT cases: the RPC's context is already cancelled at dispatch (direct carrier) or is cancelled by the transport-level interceptor just before it calls onward (direct carrier and in-process channel, waiting for the server side to finish), all behaviours of T/outer/inner, same oracle on the event log and on identities (on the in-process channel the client-visible result is not judged in these cases). CLIENT-FLAG cases: on the in-process channel and the HTTP server the client opens the stream with a StreamDesc whose flags differ from the registered ones; interceptors must be told the registered flags. PASS-THROUGH cases (swept around the base grammar on 3 (quick) / 21 (thorough) descriptor shapes, other-kind interceptors absent): transport-level {absent or set} x outer {set} x inner {absent or set} interceptor, each set one taking every behaviour of {short-circuit, fail} + {pass, replace the response (stream: the error), replace the error (unary: (nil, Aborted) whatever came back; stream: swallow it)} x what it hands onward (unary: the request received / a modified clone of it x the context received / a derived context carrying a value; stream: the ServerStream received / a wrapper with a derived context that suffixes every message in both directions), x carrier x form x handler ok/error, minus the combinations the base grammar has; the oracle demands that each layer (next interceptor, then handler) is given exactly the request / stream object the previous layer handed onward, sees the context values of every layer before it, that each layer gets back exactly what the next one returned, that the handler reads the value with the suffixes of all replacing layers in order, and that the caller / client sees the model's result. OVERLAP cases (2 (quick) / 5 (thorough) descriptor shapes): two RPCs on ONE decorated carrier; one interceptor X on the path (transport-level, outer or inner in turn; layers before X pass or rewrite or are absent, layers after X take every behaviour) makes its single onward call late: inline after a gate opens / from another goroutine that waits for the gate while X waits for it / from another goroutine after X has returned DeadlineExceeded itself; RPC 1 is held at X's gate (in the last mode: has completed for its caller), then RPC 2 to every method of the kind (the same one included) runs ungated to completion, or is held the same way and the gates are opened 2-then-1 or 1-then-2; x carrier x form x handler ok/error. All waiting is on channels. The oracle is the statement per RPC (events are attributed to an RPC by the request value / stream metadata the event was given): each interceptor once, told that RPC's FullMethod and flags, handler iff every interceptor called onward, the handler of that RPC's method, results passed through; an onward-calling interceptor that has not returned yet reads the info object it was given a second time when its onward call has come back (as logging interceptors do), and it must still say the same. The overlap phase runs with GOMAXPROCS(1) and garbage collection only between cases, so that a sync.Pool hands back what was put last (calibrated: pool_reuse_calibration) and reuse of recycled per-call state by the other RPC happens every time; every overlap case is run twice and both runs must observe the same (overlap_repeat_identical; a difference is printed, and aborts the run as inconclusive unless one of the two runs violated the statement, which is then reported). VIEW PROGRAMS (views.go; view_programs / view_program_cases / view_program_calls): two root registries R0, R1 of the carrier type (HandlerMap whose decorated handlers are called directly / inprocgrpc.Channel / httpgrpc.Server), each behind a registrar that records what arrives, each with transport-level interceptor instances of its own or none; a program is any sequence of V derivations 'view = WithInterceptor(parent, u?, s?)' (parent: any registry that exists at that point, root or earlier view; (u?,s?) in {(u,-),(-,s),(u,s)}; every view has interceptor instances of its own) and R registrations 'description X/Y/Z (one unary and one stream method each; X bidi, Y server-, Z client-streaming), or the decorated description that an earlier registration put onto the other root, with a server object of its own, through any registry that exists at that point', in every interleaving (views that are derived and never registered through included; one description pointer may be registered on both roots; programs equal up to renaming of views / descriptions / roots are enumerated once). Sizes (V,R): quick (1,1) (1,2) (2,1) crossed, (2,2) swept, (3,1) at the base point; thorough (1,1) (1,2) (2,1) (2,2) crossed, (1,3) (3,1) swept, (2,3) at the base point with every way of making instances, (3,2) at the base point. Crossed = program x carrier x form (WithInterceptor objects / InterceptServer applied by hand along the path of views) x way of making the interceptor instances {closures returned by one factory function (distinct values, one code pointer) / method values of one receiver object per view (distinct values, one code pointer) / a function literal of its own per instance (distinct code) / the very same pair of function values for all views} x transport-level interceptors {none, on both roots} x when the calls are made {after the program in registration order / in reverse order / after every single operation, everything registered so far} x which view's interceptors fail instead of calling onward {none, each view in turn}; swept = the base point (closures, transport-level interceptors, calls at the end, nothing fails) and every point differing from it in one of these four dimensions. Every call is one unary and one stream RPC per registered service; oracle = the per-instance event log (transport-level interceptor of that root, then the interceptor of the kind of every view on the path from the root to the registry registered through, root-most first, then those the re-registered decoration result already had, each once, then the handler with that registration's server object, and nothing else) plus everything demanded of a single call above, plus the input descriptions unmodified. The four ways of making instances are calibrated at start-up (instance_calibration: code pointers equal / different as intended, every instance logs as itself), otherwise the run is inconclusive. A configuration is non-trivial when at least one method is called and at least one interceptor is on its path (overlap: when RPC 1 really was held at X's gate, measured; view programs: when at least one call had an interceptor on its path, measured); distinct by all parameters.",
-		"samples":                         append(append(append(samples, ptSamples...), ovSamples...), vwSamples...),
+		"rule":                            "every configuration of: descriptor shape (0-2 unary x 0-2 streams with every flag pair) x carrier (direct call of the decorated descriptor / inprocgrpc.Channel / httpgrpc.Server via HandlerRT) x form (InterceptServer / WithInterceptor) x depth x kind called x behaviour {nil,pass,short-circuit,fail,rewrite} of the transport-level, outer and inner interceptor of that kind x nil/set of each interceptor of the other kind x handler ok/error; every method of the kind is called. Behaviours of other-kind interceptors are not varied because the oracle demands they are never invoked. In addition the SHARING cases: one decorated description (InterceptServer) or decorated HandlerMap (WithInterceptor), outer decoration behaviour {pass,short,fail,rewrite} x inner {none; quick: pass; thorough: all four} on 4 (quick) / 21 (thorough) shapes, is contributed through HandlerMap.ForEach/RegisterService to 2 or 3 in-process channels / HTTP servers, or its handler is called directly 2 or 3 times, with every sequence over {no transport interceptor, A, B} of length 2 and 3; every method of the kind is called on every carrier in turn, same oracle per call. CONTEXT cases: the RPC's context is already cancelled at dispatch (direct carrier) or is cancelled by the transport-level interceptor just before it calls onward (direct carrier and in-process channel, waiting for the server side to finish), all behaviours of T/outer/inner, same oracle on the event log and on identities (on the in-process channel the client-visible result is not judged in these cases). CLIENT-FLAG cases: on the in-process channel and the HTTP server the client opens the stream with a StreamDesc whose flags differ from the registered ones; interceptors must be told the registered flags. PASS-THROUGH cases (swept around the base grammar on 3 (quick) / 21 (thorough) descriptor shapes, other-kind interceptors absent): transport-level {absent or set} x outer {set} x inner {absent or set} interceptor, each set one taking every behaviour of {short-circuit, fail} + {pass, replace the response (stream: the error), replace the error (unary: (nil, Aborted) whatever came back; stream: swallow it)} x what it hands onward (unary: the request received / a modified clone of it x the context received / a derived context carrying a value; stream: the ServerStream received / a wrapper with a derived context that suffixes every message in both directions), x carrier x form x handler ok/error, minus the combinations the base grammar has; the oracle demands that each layer (next interceptor, then handler) is given exactly the request / stream object the previous layer handed onward, sees the context values of every layer before it, that each layer gets back exactly what the next one returned, that the handler reads the value with the suffixes of all replacing layers in order, and that the caller / client sees the model's result. OVERLAP cases (2 (quick) / 5 (thorough) descriptor shapes): two RPCs on ONE decorated carrier; one interceptor X on the path (transport-level, outer or inner in turn; layers before X pass or rewrite or are absent, layers after X take every behaviour) makes its single onward call late: inline after a gate opens / from another goroutine that waits for the gate while X waits for it / from another goroutine after X has returned DeadlineExceeded itself; RPC 1 is held at X's gate (in the last mode: has completed for its caller), then RPC 2 to every method of the kind (the same one included) runs ungated to completion, or is held the same way and the gates are opened 2-then-1 or 1-then-2; x carrier x form x handler ok/error. All waiting is on channels. The oracle is the statement per RPC (events are attributed to an RPC by the request value / stream metadata the event was given): each interceptor once, told that RPC's FullMethod and flags, handler iff every interceptor called onward, the handler of that RPC's method, results passed through; an onward-calling interceptor that has not returned yet reads the info object it was given a second time when its onward call has come back (as logging interceptors do), and it must still say the same. The overlap phase runs with GOMAXPROCS(1) and garbage collection only between cases, so that a sync.Pool hands back what was put last (calibrated: pool_reuse_calibration) and reuse of recycled per-call state by the other RPC happens every time; every overlap case is run twice and both runs must observe the same (overlap_repeat_identical; a difference is printed, and aborts the run as inconclusive unless one of the two runs violated the statement, which is then reported). VIEW PROGRAMS (views.go; view_programs / view_program_cases / view_program_calls): two root registries R0, R1 of the carrier type (HandlerMap whose decorated handlers are called directly / inprocgrpc.Channel / httpgrpc.Server), each behind a registrar that records what arrives, each with transport-level interceptor instances of its own or none; a program is any sequence of V derivations 'view = WithInterceptor(parent, u?, s?)' (parent: any registry that exists at that point, root or earlier view; (u?,s?) in {(u,-),(-,s),(u,s)}; every view has interceptor instances of its own) and R registrations 'description X/Y/Z (one unary and one stream method each; X bidi, Y server-, Z client-streaming), or the decorated description that an earlier registration put onto the other root, with a server object of its own, through any registry that exists at that point', in every interleaving (views that are derived and never registered through included; one description pointer may be registered on both roots; programs equal up to renaming of views / descriptions / roots are enumerated once). Sizes (V,R): quick (1,1) (1,2) (2,1) crossed, (2,2) swept, (3,1) at the base point; thorough (1,1) (1,2) (2,1) (2,2) crossed, (1,3) (3,1) swept, (2,3) at the base point with every way of making instances, (3,2) at the base point. Crossed = program x carrier x form (WithInterceptor objects / InterceptServer applied by hand along the path of views) x way of making the interceptor instances {closures returned by one factory function (distinct values, one code pointer) / method values of one receiver object per view (distinct values, one code pointer) / a function literal of its own per instance (distinct code) / the very same pair of function values for all views} x transport-level interceptors {none, on both roots} x when the calls are made {after the program in registration order / in reverse order / after every single operation, everything registered so far} x which view's interceptors fail instead of calling onward {none, each view in turn}; swept = the base point (closures, transport-level interceptors, calls at the end, nothing fails) and every point differing from it in one of these four dimensions. Every call is one unary and one stream RPC per registered service; oracle = the per-instance event log (transport-level interceptor of that root, then the interceptor of the kind of every view on the path from the root to the registry registered through, root-most first, then those the re-registered decoration result already had, each once, then the handler with that registration's server object, and nothing else) plus everything demanded of a single call above, plus the input descriptions unmodified. The four ways of making instances are calibrated at start-up (instance_calibration: code pointers equal / different as intended, every instance logs as itself), otherwise the run is inconclusive. ERROR IDENTITY cases (errident.go; error_identity_cases; swept around the base grammar on 3 descriptor shapes, other-kind interceptors absent): the error that travels up the chain is a plain Go error of each of 9 kinds {sentinel made with errors.New (one value per participant), that sentinel wrapped with fmt.Errorf %w, io.EOF, context.Canceled, context.DeadlineExceeded, a custom pointer type with Unwrap, a custom comparable value type, a *status.Error wrapped with fmt.Errorf %w, a custom type with a GRPCStatus method}, made by the handler (handler fails) or by the interceptor of any layer (fail-raw: returned instead of calling onward; rewrite-raw: returned in place of whatever came back) x carrier x form x unary / stream x transport-level {absent, pass, fail-raw, rewrite-raw} x outer {pass, fail-raw, rewrite-raw} x inner {absent, pass, fail-raw, rewrite-raw} x handler ok / fails (thorough: every layer additionally short-circuit, fail, rewrite, rewrite-err on the 3 shapes, and the small behaviour set on the other 18 shapes); only configurations in which the model makes a plain error on the way are run (the rest is in the base grammar). Oracle: every layer records the exact error value its onward call returned, and that must be the very value the next layer returned (same dynamic type and same pointer / equal comparable value; errors.Is and type assertions follow from that), on every hand-back handler -> inner -> outer -> transport-level interceptor, resp. -> the direct caller of the decorated handler; the client of a transport must see the code and message that grpc-go's server gives such an error (status.FromError, else status.FromContextError). The notion of identity is self-tested at start-up (error_identity_self_test). CONFIGURATION ORDER cases (cfgorder.go; config_order_programs / _cases / _calls): a carrier with transport-level interceptors as ONE long-lived object and every program of 1..3 (quick) / 1..4 (thorough) steps over {R: register a new service as it is; RD: register a new service decorated with interceptors of its own (form WI: through a WithInterceptor view derived right there, or with all views derived before the first step; form IS: InterceptServer by hand); X/K: configure transport-level interceptor X in {T1, T2, none} for K in {unary, stream, both}} that makes at least one call, with one unary and one stream RPC to every service registered so far after EVERY step, on 3 targets: inproc (one inprocgrpc.Channel, X/K = WithServerUnaryInterceptor / WithServerStreamInterceptor at any point, nil clears), httpsrv (one httpgrpc.Server, X/K = options in that order in NewServer's list, hence before the registrations), httpmux (one HandlerMap + one long-lived mux that is a map from pattern to handler, X/K = httpgrpc.HandleServices(mux, '/', map, u, s) with X for the kinds in K and nil for the others, re-registering a pattern replaces its handler; only services covered by a HandleServices call are called). Oracle per call: the transport-level interceptor of the call's kind in force WHEN THE CALL IS MADE (inproc: configured last; httpsrv: last option of the kind; httpmux: the arguments of the latest HandleServices that covered the service) first, then the service's own decoration, each exactly once, then that service's handler with its server object, plus everything demanded of a single call above; input descriptions unmodified. config_order_cases_reconfigured_after_a_registration counts programs with a configuration step after a registration; config_order_calls_in_force_differs_from_at_registration (measured) counts calls for which the interceptor in force differs from the one in force when the service was registered. A configuration is non-trivial when at least one method is called and at least one interceptor is on its path (error identity: and a plain error is made on the way; configuration order: when at least one call had an interceptor on its path, measured; overlap: when RPC 1 really was held at X's gate, measured; view programs: when at least one call had an interceptor on its path, measured); distinct by all parameters.",
+		"samples":                         append(append(append(append(append(samples, ptSamples...), ovSamples...), vwSamples...), eiSamples...), cfgSamples...),
 		"exhaustive":                      true,
 		"suppressed_reports":              suppressed,
 	}, []string{
@@ -1701,6 +1839,9 @@ func main() {
 		"a panic in a server goroutine of the in-process channel would abort the checker (exit 2) instead of being reported",
 		"quick = nesting depth 1 on all 63 descriptor shapes + depth 2 on 21 shapes (0-2 unary x {no stream, one stream of each flag pair, [client-only, server-only], [bidi, neither]}); thorough = depths 1 and 2 on all 63 shapes",
 		"the pass-through and overlap dimensions are swept around base cases on a few descriptor shapes with the other-kind interceptors absent, not crossed with the sharing / context / client-flag dimensions nor with each other",
+		"the error identity and configuration order dimensions are swept around base cases (error identity: 3 (thorough 21) descriptor shapes, other-kind interceptors absent, requests / contexts / streams handed onward as received; configuration order: services with one unary and one stream method, all interceptors call onward, handlers succeed), not crossed with the sharing / context / client-flag / pass-through / overlap / view-program dimensions nor with each other",
+		"configuration order: reconfiguring an in-process channel between RPCs (never while one is in flight) is taken to be legitimate use, and 'the transport-supplied interceptor' of an RPC is taken to be the one the carrier is configured with when the RPC is dispatched, which is what the unchanged library does; on httpgrpc.Server the options can only be given at construction, so only their order is varied there; the order in which several options of one kind apply (last wins) is taken from the unchanged library",
+		"error identity: identity is interface equality of comparable error values (pointer identity for pointer types); errors of non-comparable dynamic types are not in the grammar",
 		"view programs: descriptor shapes, behaviours other than pass / fail, handler errors, contexts and client flags are not varied (the other parts of the grammar do that); views with no interceptor at all are left out because WithInterceptor(reg, nil, nil) is checked to return reg itself; the larger program sizes are swept around / run at one base point instead of crossed (see rule); when the very same function value is given to two nested views the oracle expects it to run once per view, which is what nesting means and what the unchanged library does",
 		"overlap cases: determinism of what a late onward call finds rests on GOMAXPROCS(1) + no collection while RPCs are in flight (sync.Pool then returns the object put last; calibrated at the start of the phase) and is verified by running each case twice with identical observations; in the go-late mode on a transport the messages a stream handler reads or sends after its RPC was completed are not judged, only the event log, what interceptors were told and the handler's identity",
 	}))
